@@ -77,3 +77,7 @@ func TestC13(t *testing.T) { core.Run(t, P13) }
 func TestC15(t *testing.T) { core.Run(t, P15) }
 
 func TestC16(t *testing.T) { core.Run(t, P16) }
+
+func TestC17(t *testing.T) { core.Run(t, P17) }
+
+func TestC18(t *testing.T) { core.Run(t, P18) }
